@@ -273,6 +273,7 @@ class ClassUtils:
             target = group[0].clone()
             target.attrs = cls.reduce_attributes(group)
             target.mixed = any(x.mixed for x in group)
+            target.nillable = any(x.nillable for x in group)
 
             cls.cleanup_class(target)
             result.append(target)
